@@ -32,7 +32,7 @@ CHECKS = {
             "real": ["include/oneapi/tbb/flow_graph.h and detail/_flow_graph_*: function/multifunction/continue/input/buffer/queue/broadcast/limiter/join/async nodes, graph::wait_for_all, reserve_wait, cancel"]},
     "C15": {"scenarios": ["c15"], "quick_budget_s": 50, "thorough_budget_s": 900,
             "real": ["flow graph queue_node, sequencer_node, priority_queue_node, join_node (queueing / key_matching / reserving), limiter_node, overwrite_node, write_once_node, split_node, indexer_node, reservation protocol"]},
-    "C16": {"scenarios": ["c16"], "quick_budget_s": 50, "thorough_budget_s": 900,
+    "C16": {"scenarios": ["c16", "c16b"], "quick_budget_s": 50, "thorough_budget_s": 900,
             "real": ["src/tbb/arena.cpp (slots, occupy_free_slot, nested_arena_context, delegation), market.cpp allotment, threading_control, global_control.cpp, observer_proxy.cpp, isolation in arena_slot/task_dispatcher"],
             "assumptions": ["the allotment arithmetic 'for all demand vectors' is a pure function: it is exercised by the demand vectors real scenarios produce and guarded by oneTBB's own assertion (see known finding), not checked through a dedicated hook"]},
     "C17": {"scenarios": ["c17"], "quick_budget_s": 45, "thorough_budget_s": 600,
